@@ -14,9 +14,12 @@
                              adjacent addresses with or without a space.
   Two encodings related to the same value by the relation are "equivalent spellings".
 
-  Proved: `spellings_agree_partial` for all responses covered by the relation (see C03 for the
-  list).  Missing: response kinds not yet covered (decided by the correspondence run, which
-  compares pairwise parses of 2..4 spellings of every kind).
+  Proved: `spellings_agree` for all responses covered by the relation - every response kind of the
+  grammar (see C03 for the list).  The tolerated deviations are constructor parameters too: trailing
+  spaces before CRLF, the trailing space after SEARCH / SORT, white-space runs (SP / HTAB, any length)
+  in QUOTA, QUOTAROOT, ID, ACL, LISTRIGHTS, MYRIGHTS, VANISHED, white space before the closing
+  parenthesis of ID, `+` with or without the space, the doubled space after RFC822.HEADER, adjacent
+  addresses with or without a space, `\*` in flag lists, the empty STATUS list.
 -/
 import ImapVerif.Proofs.RTResp
 
@@ -25,7 +28,7 @@ open Bytes Parser Grammar RT
 namespace C12
 
 /-- two spellings of one value parse to the same value (each consuming exactly its own bytes) -/
-theorem spellings_agree_partial (r : Response) (e1 e2 : Bytes) (h1 : EncResponse r e1) (h2 : EncResponse r e2)
+theorem spellings_agree (r : Response) (e1 e2 : Bytes) (h1 : EncResponse r e1) (h2 : EncResponse r e2)
     (rest1 rest2 : Bytes) :
     ∃ v, parseResponse (e1 ++ rest1) = .ok v rest1 ∧ parseResponse (e2 ++ rest2) = .ok v rest2 :=
   ⟨r, parseResponse_enc r e1 h1 rest1, parseResponse_enc r e2 h2 rest2⟩
